@@ -173,11 +173,11 @@ class Ctx:
                                cwd=COQ, capture_output=True, text=True)
             os.makedirs(os.path.dirname(af), exist_ok=True)
             open(af, 'w').write(p.stdout)
-            axioms = sorted(set(l.strip() for l in p.stdout.split('\n')
-                                if l.strip() and not l.startswith('Closed under') and ':' in l and not l.startswith(' ' * 6)))
+            axioms = sorted(set(m.group(1) for m in re.finditer(r'^([A-Za-z_][\w.\']*)(?:\s*:|\s*$)', p.stdout, flags=re.M)
+                                if m.group(1) not in ('Axioms', 'Closed')))
             closed = p.stdout.count('Closed under the global context')
             self.assumptions.append('Print Assumptions: %d theorems closed under the global context; axioms named: %s'
-                                    % (closed, ', '.join(a.split(':')[0].strip() for a in axioms) or 'none'))
+                                    % (closed, ', '.join(axioms) or 'none'))
             self.extra['print_assumptions'] = {'closed': closed, 'axioms': axioms}
         return built
 
